@@ -111,12 +111,11 @@ func (inv *Invoice) Validate() error {
 func (inv *Invoice) ValidateWithContext(ctx context.Context) error {
 	ctx = inv.validationContext(ctx)
 
-	var exRule validation.Rule
-	exRule = validation.Skip
-	if r := inv.RegimeDef(); r != nil {
-		// regime specific additions for validation
-		exRule = currency.CanConvertInto(inv.ExchangeRates, r.Currency)
-	}
+	// regime specific additions for validation
+	r := inv.RegimeDef()
+	exRule := validation.When(r != nil,
+		currency.CanConvertInto(inv.ExchangeRates, r.GetCurrency()),
+	)
 
 	return tax.ValidateStructWithContext(ctx, inv,
 		validation.Field(&inv.Regime),
